@@ -85,6 +85,9 @@ def run_case(case):
     prof = searchlib.spec_profile(spec)
     searchlib.check_enumeration(spec, case["cls"], case.get("N", 7))
     cx.count("c01.specs_judged")
+    if intuniv.rng_for("c01/inject", case["id"]).random() < 0.3:
+        searchlib.interrupted_counting(spec, case["cls"], min(case.get("N", 7), 6),
+                                       intuniv.rng_for("c01/inject-k", case["id"]))
     for k in prof["kinds"]:
         cx.see("rule_kind", k)
     if res.interrupted_at is not None:
